@@ -8,6 +8,7 @@ re-oriented.  Tables (`beamOrder`, `c07EdgeDir`, `c07OpBeams`, `edgePairs`, `c07
 import CBV.Model.C07
 import CBV.Lemmas.C07
 import CBV.Lemmas.C07Face
+import CBV.Lemmas.C07Vertex
 import Mathlib.Tactic.Ring
 import Mathlib.Tactic.Linarith
 import Mathlib.Algebra.Order.Field.Rat
@@ -276,5 +277,226 @@ example : Face4 (⟨[10, 11, 12, 13], [exSpline, lineDatum, exArc, lineDatum]⟩
 example : dconn (applyFaceOps exPos ⟨[10, 11, 12, 13], [exSpline, lineDatum, exArc, lineDatum]⟩
     [.invert, .shift 1]) =
     [(10, 13, lineDatum), (13, 12, exArc), (12, 11, lineDatum), (11, 10, exSpline.reverse)] := by decide +kernel
+
+
+/-! ### from the user's faces to the edges section -/
+
+/-- the curves the user described with an operation: every face datum between the two points it
+    was given for when the face was made, every side datum between the bottom and top point the
+    operation shows at that index (after the calls on its faces) -/
+def described (pos : Nat → V3) (u : UOp) : List (Nat × Nat × Datum) :=
+  let b := applyFaceOps pos u.bottom u.bottomOps
+  let t := applyFaceOps pos u.top u.topOps
+  dconn u.bottom ++ dconn u.top ++
+    (List.range 4).map (fun i => (b.pts.getD i 0, t.pts.getD i 0, u.side.getD i lineDatum))
+
+/-- **direction, end to end**: whatever calls were applied to the faces and however many
+    operations there are, every written entry `kind v1 v2 data` is one of the curves some operation
+    described: it joins the vertices at the two locations the datum was given for and either runs
+    the way it was given with the data as given, or runs the other way with the data reversed
+    (points listed backwards, angle negated). -/
+theorem T_C07_end_to_end (locPos : Nat → V3) (bs : List (Nat × Nat × Nat)) (hbs : beamsOk bs = true)
+    (us : List UOp) (hwf : ∀ u ∈ us, Face4 u.bottom ∧ Face4 u.top) (e : Entry)
+    (he : e ∈ (assemble locPos bs us).edges) :
+    ∃ u ∈ us,
+      let a := assemble locPos bs us
+      let y := (a.vlocs.getD e.v1 0, a.vlocs.getD e.v2 0, e.d)
+      y ∈ described locPos u ∨ flipC y ∈ described locPos u := by
+  have he' : e ∈ asmEdges (fun v => locPos ((resolveAll locPos [] us).1.getD v 0)) bs (resolveAll locPos [] us).2 := he
+  obtain ⟨o, ho, s, hs, hv1, hv2, hd, _⟩ := T_C07_direction _ bs hbs _ e he'
+  obtain ⟨_, hres⟩ := resolveAll_spec locPos [] us
+  obtain ⟨u, hu, hdata, hverts⟩ := hres o ho
+  refine ⟨u, hu, ?_⟩
+  obtain ⟨hb4, hbc⟩ := sameCurves_applyOps locPos (hwf u hu).1 u.bottomOps
+  obtain ⟨ht4, htc⟩ := sameCurves_applyOps locPos (hwf u hu).2 u.topOps
+  obtain ⟨b0, b1, b2, b3, be0, be1, be2, be3, hb⟩ := face4_cases hb4
+  obtain ⟨t0, t1, t2, t3, te0, te1, te2, te3, ht⟩ := face4_cases ht4
+  have hvl : (assemble locPos bs us).vlocs = (resolveAll locPos [] us).1 := rfl
+  simp only [hvl, hv1, hv2, hd]
+  rw [hb, ht] at hdata hverts
+  simp only [List.cons_append, List.nil_append, List.length_cons, List.length_nil] at hverts
+  have hc : ∀ c, c < 8 → (resolveAll locPos [] us).1.getD (o.verts.getD c 0) 0
+      = [b0, b1, b2, b3, t0, t1, t2, t3].getD c 0 := by
+    intro c hc
+    rw [List.getD_eq_getElem?_getD, hverts c (by omega), List.getD_eq_getElem?_getD]
+  unfold described
+  rw [hb] at hbc
+  rw [ht] at htc
+  simp only [hb, ht]
+  have hs12 : s = 0 ∨ s = 1 ∨ s = 2 ∨ s = 3 ∨ s = 4 ∨ s = 5 ∨ s = 6 ∨ s = 7 ∨ s = 8 ∨ s = 9 ∨ s = 10 ∨ s = 11 := by
+    omega
+  have face : ∀ (f g : Face Nat Datum) (x : Nat × Nat × Datum), SameCurves f g → x ∈ dconn g →
+      x ∈ dconn f ∨ flipC x ∈ dconn f := fun f g x h hx => h.1 x hx
+  rcases hs12 with rfl | rfl | rfl | rfl | rfl | rfl | rfl | rfl | rfl | rfl | rfl | rfl
+  -- bottom face, slots 0-3
+  all_goals (
+    simp only [slotPair, Nat.reduceLT, Nat.reduceAdd, Nat.reduceSub, Nat.reduceMod, if_true, if_false,
+      hc _ (by decide : (0:Nat) < 8), hc _ (by decide : (1:Nat) < 8), hc _ (by decide : (2:Nat) < 8),
+      hc _ (by decide : (3:Nat) < 8), hc _ (by decide : (4:Nat) < 8), hc _ (by decide : (5:Nat) < 8),
+      hc _ (by decide : (6:Nat) < 8), hc _ (by decide : (7:Nat) < 8), hdata]
+    simp only [List.getD_cons_zero, List.getD_cons_succ, List.cons_append, List.nil_append])
+  · rcases face _ _ (b0, b1, be0) hbc (by simp [dconn_lit]) with h | h
+    · left; simp only [List.mem_append]; left; left; exact h
+    · right; simp only [List.mem_append]; left; left; exact h
+  · rcases face _ _ (b1, b2, be1) hbc (by simp [dconn_lit]) with h | h
+    · left; simp only [List.mem_append]; left; left; exact h
+    · right; simp only [List.mem_append]; left; left; exact h
+  · rcases face _ _ (b2, b3, be2) hbc (by simp [dconn_lit]) with h | h
+    · left; simp only [List.mem_append]; left; left; exact h
+    · right; simp only [List.mem_append]; left; left; exact h
+  · rcases face _ _ (b3, b0, be3) hbc (by simp [dconn_lit]) with h | h
+    · left; simp only [List.mem_append]; left; left; exact h
+    · right; simp only [List.mem_append]; left; left; exact h
+  · rcases face _ _ (t0, t1, te0) htc (by simp [dconn_lit]) with h | h
+    · left; simp only [List.mem_append]; left; right; exact h
+    · right; simp only [List.mem_append]; left; right; exact h
+  · rcases face _ _ (t1, t2, te1) htc (by simp [dconn_lit]) with h | h
+    · left; simp only [List.mem_append]; left; right; exact h
+    · right; simp only [List.mem_append]; left; right; exact h
+  · rcases face _ _ (t2, t3, te2) htc (by simp [dconn_lit]) with h | h
+    · left; simp only [List.mem_append]; left; right; exact h
+    · right; simp only [List.mem_append]; left; right; exact h
+  · rcases face _ _ (t3, t0, te3) htc (by simp [dconn_lit]) with h | h
+    · left; simp only [List.mem_append]; left; right; exact h
+    · right; simp only [List.mem_append]; left; right; exact h
+  all_goals (left; simp only [List.mem_append]; right; simp [List.range, List.range.loop])
+
+
+/-! non-vacuity of the end-to-end statement and of "first definition wins": two cubes sharing the
+    edge between locations 1 and 2; the first gives it a spline as its bottom edge 1 (1 → 2) on an
+    inverted face, the second a polyLine as its closing bottom edge 3 (2 → 1) -/
+
+def exLoc : Nat → V3 := fun l =>
+  [⟨0, 0, 0⟩, ⟨1, 0, 0⟩, ⟨1, 1, 0⟩, ⟨0, 1, 0⟩, ⟨0, 0, 1⟩, ⟨1, 0, 1⟩, ⟨1, 1, 1⟩, ⟨0, 1, 1⟩,
+   ⟨2, 0, 0⟩, ⟨2, 1, 0⟩, ⟨2, 0, 1⟩, ⟨2, 1, 1⟩].getD l V3.zero
+
+def exS : Datum := { kind := .spline, tag := 1, pts := [⟨5/4, 1/4, 0⟩, ⟨5/4, 1/2, 0⟩] }
+def exP : Datum := { kind := .polyLine, tag := 2, pts := [⟨3/4, 3/4, 0⟩, ⟨3/4, 1/2, 0⟩] }
+def exA : Datum := { kind := .angle, tag := 3, angle := 1, third := some ⟨-1/4, 0, 1/2⟩ }
+
+def exU1 : UOp :=
+  { bottom := ⟨[0, 1, 2, 3], [lineDatum, exS, lineDatum, lineDatum]⟩, bottomOps := [.invert, .shift 2],
+    top := ⟨[4, 5, 6, 7], [lineDatum, lineDatum, lineDatum, lineDatum]⟩, topOps := [.invert, .shift 2],
+    side := [lineDatum, lineDatum, lineDatum, exA] }
+
+def exU2 : UOp :=
+  { bottom := ⟨[1, 8, 9, 2], [lineDatum, lineDatum, lineDatum, exP]⟩, bottomOps := [],
+    top := ⟨[5, 10, 11, 6], [lineDatum, lineDatum, lineDatum, lineDatum]⟩, topOps := [],
+    side := [lineDatum, lineDatum, lineDatum, lineDatum] }
+
+example : ∀ u ∈ [exU1, exU2], Face4 u.bottom ∧ Face4 u.top := by
+  intro u hu
+  simp only [List.mem_cons, List.not_mem_nil, or_false] at hu
+  rcases hu with rfl | rfl <;> exact ⟨⟨rfl, rfl⟩, ⟨rfl, rfl⟩⟩
+
+/-- the inverted-and-shifted first cube numbers its corners 1,0,3,2 / 5,4,7,6; its spline is written
+    from vertex 3 (location 2) to vertex 0 (location 1) with the points reversed; the side angle is
+    written as given; the second cube's polyLine on the same edge is ignored -/
+example : (assemble exLoc (directedBeams.getD []) [exU1, exU2]).vlocs = [1, 0, 3, 2, 5, 4, 7, 6, 8, 9, 10, 11] ∧
+    (assemble exLoc (directedBeams.getD []) [exU1, exU2]).edges = [⟨3, 0, exS.reverse⟩, ⟨3, 7, exA⟩] := by
+  decide +kernel
+
+/-- hypotheses of `T_C07_first_wins_op` on that assembly: slot 3 of the first (resolved) cube -/
+example :
+    let a := assemble exLoc (directedBeams.getD []) [exU1, exU2]
+    let pos := fun v => exLoc (a.vlocs.getD v 0)
+    let o := a.rops.getD 0 ⟨[], []⟩
+    valid pos (slotReq o 3) = true ∧
+      (∀ q ∈ allReqs (directedBeams.getD []) [], valid pos q = true → q.same (slotReq o 3) = false) ∧
+      (∀ t ∈ List.range 12, valid pos (slotReq o t) = true → (slotReq o t).same (slotReq o 3) = true →
+        slotReq o t = slotReq o 3) := by
+  decide +kernel
+
+/-- hypotheses of `T_C07_first_wins` / `T_C07_kept`: a second valid request on the same pair, in the
+    other direction, after a first one -/
+example :
+    let r : Entry := ⟨3, 0, exS.reverse⟩
+    let pos := fun v => exLoc ([1, 0, 3, 2].getD v 0)
+    valid pos r = true ∧ valid pos ⟨0, 3, exP⟩ = true ∧
+      run pos ([] ++ r :: [⟨0, 3, exP⟩]) [] = [r] := by
+  decide +kernel
+
+/-! ### the length used for grading -/
+
+/-- length of a polyline for an arbitrary segment measure -/
+def pathLen (seg : V3 → V3 → Rat) : List V3 → Rat
+  | a :: b :: rest => seg a b + pathLen seg (b :: rest)
+  | _ => 0
+
+theorem pathLen_snoc2 (seg : V3 → V3 → Rat) (l : List V3) (x y : V3) :
+    pathLen seg (l ++ [x, y]) = pathLen seg (l ++ [x]) + seg x y := by
+  induction l with
+  | nil => simp [pathLen]
+  | cons a t ih =>
+    cases t with
+    | nil => simp [pathLen]
+    | cons b t' =>
+      simp only [List.cons_append, pathLen] at ih ⊢
+      rw [ih]; ring
+
+/-- a polyline has the same length from either end, for every symmetric segment measure
+    (the Euclidean distance in particular) -/
+theorem T_C07_length_reverse (seg : V3 → V3 → Rat) (hsym : ∀ a b, seg a b = seg b a) (l : List V3) :
+    pathLen seg l.reverse = pathLen seg l := by
+  induction l with
+  | nil => rfl
+  | cons a t ih =>
+    cases t with
+    | nil => rfl
+    | cons b t' =>
+      have : (a :: b :: t').reverse = t'.reverse ++ [b, a] := by simp
+      rw [this, pathLen_snoc2]
+      have h2 : t'.reverse ++ [b] = (b :: t').reverse := by simp
+      rw [h2, ih, hsym b a]
+      simp only [pathLen]; ring
+
+/-- the polyline an entry draws: first vertex, the listed points, second vertex -/
+def entryPath (pos : Nat → V3) (e : Entry) : List V3 := pos e.v1 :: e.d.pts ++ [pos e.v2]
+
+/-- the same curve written from its other end -/
+def flipE (e : Entry) : Entry := ⟨e.v2, e.v1, e.d.reverse⟩
+
+/-- **length**: a spline / polyLine entry written from the other end with its data reversed draws
+    the same polyline backwards, so `Edge.length` (the polyline through first vertex, points,
+    second vertex) is the length of the curve the user described, in whichever of the two
+    admissible ways (`T_C07_end_to_end`) the entry is written -/
+theorem T_C07_length (pos : Nat → V3) (seg : V3 → V3 → Rat) (hsym : ∀ a b, seg a b = seg b a) (e : Entry)
+    (hk : e.d.kind = .spline ∨ e.d.kind = .polyLine) :
+    entryPath pos (flipE e) = (entryPath pos e).reverse ∧
+      pathLen seg (entryPath pos (flipE e)) = pathLen seg (entryPath pos e) := by
+  have h1 : entryPath pos (flipE e) = (entryPath pos e).reverse := by
+    obtain ⟨v1, v2, d⟩ := e
+    obtain ⟨kind, tag, pts, angle, third⟩ := d
+    simp only at hk
+    rcases hk with rfl | rfl <;> simp [entryPath, flipE, Datum.reverse]
+  exact ⟨h1, by rw [h1, T_C07_length_reverse seg hsym]⟩
+
+example : (fun a b : V3 => V3.norm2 (a - b)) ⟨0, 0, 0⟩ ⟨1, 2, 3⟩ = (fun a b : V3 => V3.norm2 (a - b)) ⟨1, 2, 3⟩ ⟨0, 0, 0⟩ ∧
+    entryPath exLoc (flipE ⟨1, 2, exS⟩) = [exLoc 2, ⟨5/4, 1/2, 0⟩, ⟨5/4, 1/4, 0⟩, exLoc 1] := by decide +kernel
+
+/-- centre of the `arc v1 v2 angle axis` construction of `arc_from_theta` for a unit axis
+    perpendicular to the chord, with `t = tan(angle/2)`: `mid − (dp × axis) / (2 t)` -/
+def angleCentre (p1 p2 axis : V3) (t : Rat) : V3 :=
+  V3.smul (1 / 2) (p1 + p2) - V3.smul (1 / (2 * t)) (V3.cross (p2 - p1) axis)
+
+/-- **sense of an angle arc**: swapping the end points and negating the angle (`Angle.reverse`,
+    tan is odd) leaves the centre of the arc where it was — the same arc is drawn -/
+theorem T_C07_angle_sense (p1 p2 axis : V3) (t : Rat) :
+    angleCentre p2 p1 axis (-t) = angleCentre p1 p2 axis t := by
+  apply V3.ext' <;> simp [angleCentre] <;> ring
+
+/-! ### known finding, at model level -/
+
+/-- `Wire.edge:defined-later`: a block assembled before the operation that defines a shared edge
+    keeps a line on its wire although the edge list ends up with a curved entry for that pair.
+    Here the second cube defines the edge between vertices 1 and 2 (its closing edge 3), the first
+    cube's wire on beam (1,2) holds a line. -/
+theorem T_C07_wire_stale_counterexample :
+    let u1 : UOp := { exU1 with bottom := ⟨[0, 1, 2, 3], [lineDatum, lineDatum, lineDatum, lineDatum]⟩,
+                                bottomOps := [], topOps := [] }
+    let a := assemble exLoc (directedBeams.getD []) [u1, exU2]
+    a.edges = [⟨3, 7, exA⟩, ⟨2, 1, exP⟩] ∧ a.wires.getD 3 default = ⟨1, 2, lineDatum⟩ ∧
+      (a.wires.getD 3 default).same ⟨2, 1, exP⟩ = true := by
+  decide +kernel
 
 end CBV.C07
